@@ -263,6 +263,9 @@ def c10(out, tier, rng):
     noc = sorted(s for s in gen.SYMBOLS if s != "C")
     more += ["".join(hill) + "/(1-118)(2-117)", "".join(noc) + "/", "".join(f"{s}2" for s in hill) + "/(1-236)/(236:mass=300)(1:rad=3)",
              "".join(hill[:60]) + "/(1-60)", "CH4/\n(1-5)", "CH4/(1-5)\n", "C\nH4/"]
+    more += ["C257/(257-257)", "C300/(1-2)(299-299)", "C999/(999-999)", "C1000/(1000-1000)", "C300/(257-258)(258-257)", "C300//(257:mass=257,mass=257)",
+             "C300//(300:mass=300)(300:mass=300)", "C300//(300:mass=300)(300:rad=300)", "C2/(1-2)\t", "\tC2/(1-2)", "C2/(1-2)\r\n", "C2/(1-2)\x0b", "\xa0C2/(1-2)",
+             "C2/(1-2)\u2003", "C2 /(1-2)", "C2/ (1-2)"]
     more += ["/(1-2)", "//(1:mass=2)", "/(10-11)/(12:rad=2)", "/(1-1)", "Xe//(1:mass=53)", "Og2/(1-2)/(2:mass=100)", "CHCl3/(1-2)(2-3)(2-4)(2-5)/(1:mass=2)",
              "ClH/(1-2)/(1:mass=2)", "C2H2/(1-3)(2-4)(3-4)/(1:mass=3)", "/", "//", "C/", "H/", "CH/", "HC/", "CHCl/", "CClH/", "ClH/", "HCl/", "C2/(1-2)", "C1/", "C01/", "C10/", "C2H/(1-2)(1-3)", "Cl2/(1-2)", "CCl/(1-2)",
              "CnCo/(1-2)", "CoCn/", "CCn/", "CnC/", "HHe/", "HeH/", "HeHf/", "NNa/", "NaN/", "NaNb/", "NbNa/", "H2/(1-2)(2-1)", "H2/(1-2)(1-2)", "H2/(2-1)",
